@@ -1,5 +1,6 @@
 import TextxVerif.Proofs.LoadTreeFrame
 import TextxVerif.Proofs.LoadTreeSpec
+import TextxVerif.Proofs.LoadTreeProcs
 /-!
 # C14 — user classes are constructed once with exactly the grammar attributes
 
@@ -98,6 +99,78 @@ theorem C14_init_order (table : List Load) (n : Nat) (L : Load) (sh : Sh α) (ho
   rw [h2, hown]
   simpa using (mainTrace_order L).sublist h1.sublist
 
+/-- **References resolved, or no constructor at all.**  If the reference resolution of any file of the
+attempt (the main file or a file imported directly or indirectly) fails (`Load.unres`: a scope-provider
+call raises — unknown name, exception of the provider — or a reference stays postponed for good), the
+attempt fails and *no* constructor and *no* object processor of any file is called — whatever else
+happens (other faults, nested loads): `__init__` only ever runs when every reference of every file of
+the load is resolved.  (`L.immut = false`: a main model of an immutable type has no references.) -/
+theorem C14_no_init_when_unresolved (table : List Load) (n : Nat) (L : Load) (sh : Sh α) (hown : sh.own = [])
+    (hconv : L.immut = false) (hun : true ∈ L.unres) :
+    (runF table (n + 1) L sh).2 = false ∧
+      ∀ e, e ∈ (runF table (n + 1) L sh).1.own → e.kind ≠ 3 ∧ e.kind ≠ 4 := by
+  have henv := tableEnv_own (α := α) (runF table n) table
+  have h0 : ∀ K, OwnP (QK K (fun _ => False)) sh := by intro K e he; simp [hown] at he
+  have h3 := node_main_unres (K := 3) (R := fun _ => False) henv (by decide) (by decide) (by decide) (by decide)
+    L sh hconv hun (h0 3)
+  have h4 := node_main_unres (K := 4) (R := fun _ => False) henv (by decide) (by decide) (by decide) (by decide)
+    L sh hconv hun (h0 4)
+  refine ⟨?_, fun e he => ⟨fun hk => h3.1 e he hk, fun hk => h4.1 e he hk⟩⟩
+  simp only [runF, runMain]
+  have := h3.2
+  cases hr : (node (tableEnv (runF table n) table) true L [] sh).2 with
+  | ok _ => rw [hr] at this; simp [isOk] at this
+  | error _ => rfl
+
+/-- **Object processors see the classes as they were before loading (general form).** Whatever the
+load tree, the faults and the nesting, and whether the attempt succeeds or fails: every object
+processor call of the attempt (event kind 4) carries the instrumentation snapshot of the state `sh`
+in which the attempt *started* — by then every parser of the attempt has given back its
+instrumentation and every collected attribute dict has been handed to its constructor.  (For a load
+nested in user code of another load `sh` is the state inside that load: the outer load's holdings
+are all the processors of the nested load see.) -/
+theorem C14_procs_see_start (table : List Load) (n : Nat) (L : Load) (sh : Sh α) (hg : Good sh)
+    (hown : sh.own = []) :
+    ∀ e, e ∈ (runF table n L sh).1.own → e.kind = 4 → ∃ cs, e.snap = snapOf cs sh := by
+  cases n with
+  | zero => intro e he; simp [runF, hown] at he
+  | succ n =>
+    have h0 : OwnP (QK 4 (SnapAt sh)) sh := by intro e he; simp [hown] at he
+    have := runMain_procs (runF_env_frame table n) (tableEnv_own (runF table n) table) L sh hg h0
+    intro e he h4
+    exact this e he h4
+
+/-- **Object processors see un-instrumented classes with empty storage.** Loading starts with
+untouched classes: every object processor call of the attempt — in a successful attempt and in one
+that fails later (another object processor, a model processor) — finds, for every user class of its
+metamodel, no counter attribute, the class's own attribute-access methods, no cached originals and
+an empty per-object storage. -/
+theorem C14_procs_see_clean (table : List Load) (n : Nat) (L : Load) (orig : ClassId → α)
+    (next : Nat) (log : List Ev) :
+    let sh : Sh α := ⟨fun c => ⟨0, .real (orig c), none⟩, [], next, log, []⟩
+    ∀ e, e ∈ (runF table n L sh).1.own → e.kind = 4 → ∀ s, s ∈ e.snap → s = (0, false, false, 0) := by
+  intro sh e he h4 s hs
+  have hg : Good sh := ⟨fun c => ⟨orig c, 0, rfl⟩, List.nodup_nil, fun p hp => by simp [sh] at hp⟩
+  obtain ⟨cs, hsnap⟩ := C14_procs_see_start table n L sh hg rfl e he h4
+  rw [hsnap] at hs
+  simp only [snapOf, List.mem_map] at hs
+  obtain ⟨c, _, hc⟩ := hs
+  rw [← hc]
+  simp [sh, isInstr, countKeys]
+
+/-- The same is *not* true of the constructors: in a multi-file load the constructors of all models
+but the last run while the parsers of the later models still hold their instrumentation (the
+interpretation note in `notes/C14.md`); the statement above is about kind 4 for a reason. -/
+theorem C14_init_sees_clean_false :
+    ∃ (L : Load) (sh : Sh Nat), sh.own = [] ∧ (∀ c, sh.core c = ⟨0, .real c, none⟩) ∧ sh.attrs = [] ∧
+      (runF [] 1 L sh).2 = true ∧
+      ∃ e, e ∈ (runF [] 1 L sh).1.own ∧ e.kind = 3 ∧ e.snap = [(1, true, true, 2)] :=
+  ⟨.mk 1 [0] true (.obj (some 0) ⟨10, [], false⟩ []) none
+      [.mk 2 [0] true (.obj (some 0) ⟨20, [], false⟩ [.obj (some 0) ⟨21, [], false⟩ []]) none [] [] false [] ⟨20, [], false⟩]
+      [] false [⟨10, [], false⟩] ⟨10, [], false⟩,
+    ⟨fun c => ⟨0, .real c, none⟩, [], 0, [], []⟩, rfl, fun _ => rfl, rfl, by decide,
+    ⟨3, 1, 10, [(1, true, true, 2)]⟩, by decide, rfl, rfl⟩
+
 /-- **Exactly the grammar attributes.** What `_end_model_construction` passes to
 `__init__`: the rule's attributes in grammar order, and `parent` iff the object is
 contained — whatever else was stored on the object while loading. -/
@@ -124,6 +197,36 @@ theorem C14_kwargs_ops (txAttrs assigned extras : List String) (contained : Bool
     Kw.kwargs txAttrs contained (Kw.collectedOps txAttrs assigned contained extras ops) =
       txAttrs ++ (if contained then ["parent"] else []) :=
   Kw.kwargs_ops txAttrs contained ops _ (C14_kwargs txAttrs assigned extras contained hn hp hpos hend ha he) ho
+
+/-- **Which keys `__init__` receives, without any assumption on user code.**  Whatever user code
+stores on or deletes from an object whose constructor is still postponed — grammar attributes and the
+`parent` of a contained object included — and whatever the grammar's attribute names are: the
+constructor receives no key twice, and a key `k` iff `k` is an attribute of the rule (or `parent`, for a
+contained object) that user code has not taken away itself (`Kw.Op.alive k true ops`: the last store /
+deletion of `k`, if any, is a store).  In particular never a name unknown to the rule, never `parent`
+on a root object.  (`C14_kwargs_ops` adds the *order* — grammar order, `parent` last — under
+`Op.harmless`; a grammar attribute that is deleted and stored again moves to the end, see the example.) -/
+theorem C14_kwargs_ops_general (txAttrs assigned extras : List String) (contained : Bool) (ops : List Kw.Op) :
+    (Kw.kwargs txAttrs contained (Kw.collectedOps txAttrs assigned contained extras ops)).Nodup ∧
+    ∀ k, k ∈ Kw.kwargs txAttrs contained (Kw.collectedOps txAttrs assigned contained extras ops) ↔
+      (k ∈ txAttrs ∨ (k = "parent" ∧ contained = true)) ∧ Kw.Op.alive k true ops = true :=
+  Kw.kwargs_ops_general txAttrs assigned extras contained ops
+
+/-- user code that is `harmless` takes nothing away: every key the constructor is owed stays alive
+(so the general form specialises to the key set of `C14_kwargs_ops`) -/
+theorem C14_kwargs_harmless_alive (txAttrs : List String) (contained : Bool) (ops : List Kw.Op) (k : String)
+    (hk : k ∈ txAttrs ∨ (k = "parent" ∧ contained = true))
+    (ho : ∀ o, o ∈ ops → o.harmless txAttrs contained) : Kw.Op.alive k true ops = true :=
+  Kw.alive_of_harmless txAttrs contained ops k true hk rfl ho
+
+/-- user code deletes the grammar attribute `val` (not `harmless`): the constructor does not get it;
+deletes it and stores it again: it gets it, after `parent` -/
+example : Kw.kwargs ["name", "val"] true (Kw.collectedOps ["name", "val"] ["name"] true [] [.del "val", .set "note"]) =
+    ["name", "parent"] := by decide
+example : Kw.kwargs ["name", "val"] true (Kw.collectedOps ["name", "val"] ["name"] true [] [.del "val", .set "val"]) =
+    ["name", "parent", "val"] := by decide
+example : Kw.Op.alive "val" true [.del "val", .set "note"] = false ∧ Kw.Op.alive "val" true [.del "val", .set "val"] = true ∧
+    Kw.Op.alive "parent" true [.set "parent", .del "parent"] = false := by decide
 
 /-- The filter of the pinned code (`k == "parent"` without asking whether the object is contained)
 passed a `parent` that user code had stored on the root object on to its constructor; the repaired
@@ -170,6 +273,25 @@ example : (runF [mainOk, childBad] 3 mainOk clean).2 = true := by decide
 example : (runF [mainOk, childBad] 3 mainOk clean).1.log.map (·.snap) |>.contains [(2, true, true, 3)] := by decide
 example : (runF [mainOk, childBad] 3 mainOk clean).1.own.map Ev.key = mainTrace mainOk := by decide
 example : initTr (mainSums mainOk) = [(3, 1, 10), (3, 2, 21), (3, 2, 20)] := by decide
+/-- the object processors of that attempt (three calls, one of them in the imported file) and what
+they saw; the constructors before them saw counter 1 (the imported file's parser) resp. 0 -/
+example : (runF [mainOk, childBad] 3 mainOk clean).1.own.filter (·.kind == 4) =
+    [⟨4, 1, 10, [(0, false, false, 0)]⟩, ⟨4, 2, 21, [(0, false, false, 0)]⟩, ⟨4, 2, 20, [(0, false, false, 0)]⟩] := by decide
+example : (runF [mainOk, childBad] 3 mainOk clean).1.own.filter (·.kind == 3) =
+    [⟨3, 1, 10, [(1, true, true, 2)]⟩, ⟨3, 2, 21, [(0, false, false, 1)]⟩, ⟨3, 2, 20, [(0, false, false, 0)]⟩] := by decide
+/-- `C14_no_init_when_unresolved`: the imported file holds an unresolvable reference; the hypotheses hold
+and (contrast) without it the same tree runs three constructors -/
+private def childUnres : Load :=
+  .mk 2 [0] true (.obj (some 0) (h0 20) [.obj (some 0) (h0 21) []]) none [] [h0 22] true [h0 21, h0 20] (h0 20)
+private def mainUnres : Load :=
+  .mk 1 [0] true (.obj (some 0) (h0 10) [.conv (h0 11)]) none [childUnres] [] false [h0 10] (h0 10)
+example : mainUnres.immut = false ∧ true ∈ mainUnres.unres := by decide
+/-- … or its scope provider raises (`childBad`) -/
+example : mainBad.immut = false ∧ true ∈ mainBad.unres := by decide
+example : (runF [] 1 mainUnres clean).1.own.map Ev.key = [(0, 1, 11), (5, 2, 20), (2, 2, 22)] := by decide
+/-- `Good` and `own = []` of `C14_procs_see_start` hold for the clean state -/
+example : Good clean ∧ clean.own = [] :=
+  ⟨⟨fun c => ⟨c, 0, rfl⟩, List.nodup_nil, fun p hp => by simp [clean] at hp⟩, rfl⟩
 end
 
 end LoadTree
